@@ -109,6 +109,17 @@ pub fn run(path: &str) -> i32 {
                         if format!("{id:?}") != format!("0x{h}") || format!("{id}") != format!("0x{}..{}", &h[..4], &h[60..]) || serde_json::to_string(&id).unwrap_or_default() != format!("\"0x{h}\"") {
                             ctx.violate("C16", "display-form", "replay", || format!("{id} / {id:?}"), || r.clone());
                         }
+                        if format!("{id:#?}") != format!("0x{h}") || format!("{:#?}", Some(id)).matches("0x").count() != 1 {
+                            ctx.violate("C16", "debug-form", "replay", || format!("{id:#?}"), || r.clone());
+                        }
+                        let mut inv = raw;
+                        inv.iter_mut().for_each(|b| *b ^= 0xff);
+                        let mut two = raw;
+                        two[3] ^= 0x5a;
+                        two[17] ^= 0x5a;
+                        if id == inv || id == two || !(id == raw) {
+                            ctx.violate("C16", "id-equals-other-bytes", "replay", || h.clone(), || r.clone());
+                        }
                     }
                 }
             }
